@@ -136,9 +136,74 @@ Proof.
     repeat split; congruence.
 Qed.
 
+(* ---------- slow connect: the stale timer inside the connect window ---------- *)
+
+(* the stale timer firing on the authenticated, still connecting connection changes nothing:
+   the whole label is a connect d seconds later (unless the connection is unusable) *)
+Lemma connect_slow_eq : forall g s e c fp fi d,
+  unusable s = false ->
+  connect_slow g s e c fp fi d = (connect g (advance s d) e c fp fi, []).
+Proof.
+  intros g s e c fp fi d U. unfold connect_slow, connect, stale_due, advance. cbn.
+  destruct (closed s || auth s) eqn:CA; [reflexivity|].
+  apply orb_false_iff in CA. destruct CA as [C A].
+  destruct (armed s) as [[[] due]|] eqn:Ar; cbn; rewrite ?C; try reflexivity.
+  destruct (due <=? now s + d); cbn; rewrite ?U, ?C; cbn; unfold schedule; cbn; rewrite ?C; reflexivity.
+Qed.
+
+Lemma connect_slow_closed_or_eq : forall g s e c fp fi d,
+  closed (fst (connect_slow g s e c fp fi d)) = true \/
+  connect_slow g s e c fp fi d = (connect g (advance s d) e c fp fi, []).
+Proof.
+  intros g s e c fp fi d. destruct (unusable s) eqn:U; [|right; apply connect_slow_eq; assumption].
+  unfold connect_slow, connect, stale_due, advance. cbn.
+  destruct (closed s || auth s) eqn:CA; [right; reflexivity|].
+  apply orb_false_iff in CA. destruct CA as [C A].
+  destruct (armed s) as [[[] due]|] eqn:Ar; cbn; rewrite ?C; try (right; reflexivity).
+  destruct (due <=? now s + d); cbn; rewrite ?U, ?C; cbn.
+  - left. reflexivity.
+  - right. unfold schedule; cbn; rewrite ?C; reflexivity.
+Qed.
+
+Lemma advance_inv : forall s d, inv s -> inv (advance s d).
+Proof.
+  intros s d I C'. cbn [closed advance] in C'. specialize (I C'). destruct I as [Iu Ia].
+  split; intro Ax; cbn in *; auto.
+Qed.
+
+Lemma connect_inv : forall g s e c fp fi, inv s -> inv (connect g s e c fp fi).
+Proof.
+  intros g s e c fp fi I. unfold connect.
+  destruct (closed s) eqn:C; cbn [orb]; [assumption|].
+  destruct (auth s) eqn:Au; [assumption|].
+  destruct (I C) as [Iu Ia]. destruct (Iu Au) as [Z1 [Z2 [Z3 [Z4 _]]]].
+  intro C'. split; intro Ax.
+  + unfold schedule in Ax. cbn in Ax. rewrite ?C in Ax. cbn in Ax. discriminate.
+  + unfold schedule. cbn. rewrite ?C. cbn. split; [reflexivity|].
+    unfold J. cbn. destruct (0 <? e) eqn:E.
+    * right. nb. lia.
+    * left. assumption.
+Qed.
+
+Lemma connect_slow_inv : forall g s e c fp fi d, inv s -> inv (fst (connect_slow g s e c fp fi d)).
+Proof.
+  intros g s e c fp fi d I.
+  destruct (connect_slow_closed_or_eq g s e c fp fi d) as [X|X]; [apply inv_closed; exact X|].
+  rewrite X. cbn [fst]. apply connect_inv, advance_inv, I.
+Qed.
+
+(* the property: an authenticated connection is not closed by the stale timer, also while its
+   connect is still inside the OnConnect handler *)
+Lemma stale_spares_connecting : forall g s e c fp fi d,
+  unusable s = false -> snd (connect_slow g s e c fp fi d) = [].
+Proof. intros. rewrite connect_slow_eq by assumption. reflexivity. Qed.
+
 Lemma step_inv : forall g s l s' o, step g s l = Some (s', o) -> inv s -> inv s'.
 Proof.
   intros g s l s' o H I.
+  destruct (match l with LConnectSlow _ _ _ _ _ => true | _ => false end) eqn:SLOW.
+  { destruct l; try discriminate. cbn [step step_gen] in H. inversion H as [H'].
+    use_fst H'. apply connect_slow_inv, I. }
   destruct (closed s) eqn:C.
   { (* a closed connection stays closed *)
     apply inv_closed. destruct l; cbn [step step_gen] in H.
@@ -156,7 +221,8 @@ Proof.
       destruct (now s <? e); cbn; rewrite C; cbn; assumption.
     - inversion H as [H']. destruct (auth s); [unfold sub_refresh_cmd in H'|unfold close in H']; rewrite C in H';
         inversion H'; subst; assumption.
-    - inversion H; subst. cbn. assumption. }
+    - inversion H; subst. cbn. assumption.
+    - discriminate SLOW. }
   specialize (I C). destruct I as [Iu Ia].
   destruct l; cbn [step step_gen] in H.
   - (* advance *) inversion H; subst. intro C'. cbn in *. auto.
@@ -273,6 +339,7 @@ Proof.
     + inversion H'; subst. intro; split; intro; [congruence|auto].
   - (* stream moves *)
     inversion H; subst. intro C'. split; intro Ax; cbn in Ax; [apply Iu in Ax|apply Ia in Ax]; exact Ax.
+  - discriminate SLOW.
 Qed.
 
 Lemma init_inv : forall g, inv (init g).
@@ -491,6 +558,16 @@ Qed.
 Lemma schedule_K : forall s, K s -> K (schedule s).
 Proof. intros s H. unfold schedule. destruct (closed s); [assumption|]. eapply K_ext; eauto. Qed.
 
+Lemma connect_slow_K : forall g s e c fp fi d, K s -> K (fst (connect_slow g s e c fp fi d)).
+Proof.
+  intros g s e c fp fi d H.
+  unfold connect_slow, stale_due, advance, schedule, close. cbn.
+  repeat match goal with
+         | |- context [match armed s with _ => _ end] => destruct (armed s) as [[[] ?]|]
+         | |- context [if ?b then _ else _] => destruct b; cbn
+         end; cbn; (eapply K_ext; [| | | |exact H]; reflexivity).
+Qed.
+
 Lemma step_K : forall g s l s' o, step g s l = Some (s', o) -> K s -> K s'.
 Proof.
   intros g s l s' o H Ks. destruct l; cbn [step step_gen] in H.
@@ -543,6 +620,7 @@ Proof.
     destruct (negb (sb_csr b)); [use_fst H'; apply close_K; assumption|].
     destruct ((0 <? e) && (e <? now s)); inversion H'; subst; [assumption|eapply K_ext; eauto].
   - inversion H; subst. eapply K_ext; eauto.
+  - inversion H as [H']. use_fst H'. apply connect_slow_K. assumption.
 Qed.
 
 Theorem exec_K : forall g ls s os, exec g (init g) ls = Some (s, os) -> K s.
